@@ -537,6 +537,41 @@ func c05Directed(c *core.Ctx) bool {
 			return false
 		}
 	}
+	// (d) Default x Catch: a Default that fails the node's own tests is replaced by the catch value (both modes); an un-coercible input
+	// on a node with a Default and a Catch ends in the catch value; (e) a typed-nil element of a []*T input is an element like any other
+	for _, mode := range []string{"Parse", "Validate"} {
+		sch := func() *z.StringSchema[string] { return z.String().Default("ab").Min(5).Catch("fallback") }
+		var d string
+		var li z.ZogIssueList
+		if mode == "Parse" {
+			li = sch().Parse(nil, &d)
+		} else {
+			li = sch().Validate(&d)
+		}
+		c.Eval(1)
+		if len(li) != 0 || d != "fallback" {
+			c.Violation("catch-value-not-placed|default-that-fails-its-tests|"+mode, map[string]any{"schema": "String().Default(ab).Min(5).Catch(fallback)", "input": "absent / zero value", "destination": d, "issues": fmt.Sprint(z.Issues.SanitizeList(li)), "want": "fallback, no issue"})
+			return false
+		}
+	}
+	nd := 5
+	ln := z.Int().Default(1).Catch(9).Parse("abc", &nd)
+	var td time.Time
+	lt := z.Time().Default(time.Unix(0, 0)).Catch(time.Unix(99, 0)).Parse("yesterday", &td)
+	c.Eval(2)
+	if len(ln) != 0 || nd != 9 || len(lt) != 0 || !td.Equal(time.Unix(99, 0)) {
+		c.Violation("catch-value-not-placed|uncoercible-input-with-default-and-catch", map[string]any{"schema": "Int().Default(1).Catch(9) on \"abc\"; Time().Default(epoch).Catch(epoch+99s) on \"yesterday\"", "destinations": fmt.Sprint(nd, " ", td.Unix()), "issues": fmt.Sprint(z.Issues.SanitizeList(ln), z.Issues.SanitizeList(lt)), "want": "9 / 99, no issues"})
+		return false
+	}
+	seven := 7
+	var nilInt *int
+	var outInts []int
+	mi := z.Slice(z.Int().GT(5).Catch(7)).Parse([]*int{nilInt, &seven, nilInt}, &outInts)
+	c.Eval(1)
+	if len(mi) != 0 || fmt.Sprint(outInts) != "[7 7 7]" {
+		c.Violation("catch-value-not-placed|typed-nil-list-element", map[string]any{"schema": "Slice(Int().GT(5).Catch(7))", "input": "[]*int{nil, &7, nil}", "destination": fmt.Sprint(outInts), "issues": fmt.Sprint(z.Issues.SanitizeMap(mi)), "want": "[7 7 7], no issue (a nil *int is not an int: un-coercible, caught)"})
+		return false
+	}
 	c.Count("directed_catch_scenarios", 1)
 	return true
 }
